@@ -138,7 +138,7 @@ MANIFEST = {
     "technique": "predicate identity on canonical comparison forms (order domain) for when/is_out_date, loop-exit and shape rules for the stateful period triggers, phase rule for the bar loop",
     "claim": "For every time-trigger class the firing predicate and the retirement predicate equal the statement's "
              "(exact firing set; retired only from a time on after which the predicate cannot hold); period triggers arm "
-             "with period+delay, honour the immediate flag and advance each due period independently; the action is called "
+             "with period+delay, honour the immediate flag and advance each due period independently (constructors compared with references: the delay is stored unchanged); the action is called "
              "once with the extra arguments; the bar loop fires from the live list before it retires from the live list.",
     "note": "Trusted: references in sa/props/C18.py; recognisers for the PeriodsTrigger loop and the bar-loop statements "
             "(a changed shape is an analysis error). Not decided: periods that do not divide the bar interval.",
